@@ -118,6 +118,7 @@ const (
 	dIterGlyph     = "iter-glyph"       // Iter yields (r,g), Lookup(r) = (g',true), g != g'
 	dLookupNotIter = "lookup-not-iter"  // Lookup(r) ok but Iter never yields r
 	dRangesExtra   = "ranges-extra"     // RuneRanges contains r, Lookup(r) not ok
+	dRangesOrder   = "ranges-order"     // RuneRanges not sorted ascending / overlapping
 	dRangesMissing = "ranges-missing"   // Lookup(r) ok, RuneRanges does not contain r
 	dCovExtra      = "coverage-extra"   // coverage contains r, Lookup(r) not ok
 	dCovMissing    = "coverage-missing"
@@ -211,6 +212,12 @@ func (un *universe) mark(lo, hi int64) {
 // disagreement. hint lists extra (lo,hi) intervals to evaluate when the universe is not exhaustive;
 // the BMP, the pages of every rune yielded by Iter and of every RuneRanges bound are always in.
 func checkCmap(cm font.Cmap, exhaustive bool, hint [][2]int64, m *matcher) (rp *report) {
+	return checkCmapIn(cm, exhaustive, false, hint, m)
+}
+
+// checkCmapIn: with narrow set (small-table enumerator) the BMP is not evaluated as a whole, only
+// the hinted intervals and the pages of what Iter and RuneRanges report.
+func checkCmapIn(cm font.Cmap, exhaustive, narrow bool, hint [][2]int64, m *matcher) (rp *report) {
 	rp = &report{counts: map[string]int{}, excused: map[string]int{}, m: m}
 	rp.typeName, rp.innerType = typeNames(cm)
 	stage := "start"
@@ -223,7 +230,9 @@ func checkCmap(cm font.Cmap, exhaustive bool, hint [][2]int64, m *matcher) (rp *
 	un := &universe{all: exhaustive, page: s.page}
 	if !exhaustive {
 		clear(s.page)
-		un.mark(0, 0xFFFF)
+		if !narrow {
+			un.mark(0, 0xFFFF)
+		}
 		for _, h := range hint {
 			un.mark(h[0], h[1])
 		}
@@ -276,7 +285,12 @@ func checkCmap(cm font.Cmap, exhaustive bool, hint [][2]int64, m *matcher) (rp *
 	rp.ranger = isRanger
 	if isRanger {
 		ranges = ranger.RuneRanges(nil)
-		for _, ra := range ranges {
+		for i, ra := range ranges {
+			// the consumer (scriptsFromRanges: "ranges, which must be sorted (in ascending order)",
+			// and the page-by-page construction of the rune set) needs sorted, disjoint ranges
+			if i > 0 && ra[0] <= ranges[i-1][1] && ranges[i-1][0] <= ranges[i-1][1] {
+				rp.add(disc{Class: dRangesOrder, Rune: ra[0], Msg: fmt.Sprintf("RuneRanges is not sorted and disjoint: [%s,%s] follows [%s,%s]", u(ra[0]), u(ra[1]), u(ranges[i-1][0]), u(ranges[i-1][1]))})
+			}
 			lo, hi := int64(ra[0]), int64(ra[1])
 			un.mark(lo, lo)
 			un.mark(hi, hi)
